@@ -116,7 +116,7 @@ SCALE = {
     "C13": "255-1000 one-byte messages in one flush",
     "C15": "sessions starting at 7 and 100 days of uptime; acknowledgements 2.2-2.9 s late",
     "C17": "key-stream reuse oracle on every pair of datagrams sealed under one key; fail-over to a second address of the same (multi-homed) server after a challenge and a whole time-out of silence",
-    "C18": "300-4100 half-open sessions (table limit 4096); tokens with 32 addresses (only the last / none answering); server uptime of 100 days and 2^32+7 s; late confirmation followed by partial silence; stale denials with a 2 s time-out",
+    "C18": "300-4100 half-open sessions (table limit 4096); tokens with 32 addresses (only the last / none answering); server uptime of 100 days and 2^32+7 s; late confirmation followed by partial silence; client clocks ahead of / behind the token issuer's; a server with two public addresses; stale denials with a 2 s time-out",
     "C20": "token whose first address is silent; a second, slow server on the same host whose answers arrive after the fail-over; one 2250 ms server update; 12 empty datagrams from a stranger",
 }
 for _pid, _s in SCALE.items():
